@@ -30,7 +30,73 @@ PROFILE = S.profile(renames=0.4, dups=0.3, attrs=0.45, sizes=[("small", 45), ("m
 def cases(draw, tier="quick"):
     spec = draw(S.enum_specs(PROFILE))
     cfg = draw(S.configs(spec, p_on=0.7, p_sorted=0.5))
+    if not E.enabled(cfg, "sorted") and draw(st.integers(0, 3)) == 0:
+        # several rename attributes on one variant (the expansion must still be a function of the declaration)
+        for j, v in enumerate(spec["variants"]):
+            if v.get("rename") is not None and not v.get("cfg_off") and draw(st.booleans()):
+                v["extra_renames"] = ["xr%d_%d" % (j, k) for k in range(draw(st.integers(1, 3)))]
     return {"spec": spec, "cfg": cfg, "procs": PROCS.get(tier, 8)}
+
+
+def fixed_cases(tier):
+    """Size matrix: per repr, every variant count 2..=20 (with one hole and gapless) under the feature sets whose
+    automatic mode choice depends on the size - a tie or threshold decided by anything but the declaration shows
+    as two differing expansions."""
+    return [{"threshold": r, "procs": PROCS.get(tier, 8)} for r in ("u8", "i8", "u16", "i32", "u64")]
+
+
+THRESHOLD_FEATS = [["iter"], ["iter", "as_str"], ["iter", "range"], ["as_str", "from_str"], ["iter", "next", "next_back", "names"]]
+TCOPIES = 3
+
+
+def run_threshold(case):
+    out = J.Outcome()
+    r = case["threshold"]
+    items = []
+    for n in range(2, 21):
+        for holes in (False, True):
+            vals = list(range(3, 3 + n))
+            if holes:
+                vals = vals[:n // 2] + [x + 4 for x in vals[n // 2:]]
+            spec = {"repr": r, "vis": "pub", "ident": "E", "enum_attrs": [],
+                    "variants": [{"ident": "V%d" % i, "disc": str(v)} for i, v in enumerate(vals)]}
+            for fs in THRESHOLD_FEATS:
+                items.append(E.enum_item_text(spec, S.simple_config(fs), only_tools=True))
+    parts = [E.HEADER]
+    for g, item in enumerate(items):
+        for c in range(TCOPIES):
+            parts.append("pub mod m%d {\n    use ::enum_tools::EnumTools;\n%s\n}" % (g * TCOPIES + c, item))
+    src = "\n".join(parts) + "\n"
+    first = {}
+    total = 0
+    for p in range(case["procs"]):
+        c = build.rustc(src, mode="expand", crate_name="det", use_cache=False)
+        if not c.ok:
+            out.violate("a legal declaration failed to expand", stderr=J.short_err(c.stderr))
+            break
+        mods = split_modules(c.text)
+        if len(mods) != len(items) * TCOPIES:
+            raise build.InfraError("could not split the expansion into %d modules (got %d)" % (len(items) * TCOPIES, len(mods)))
+        for j in sorted(mods):
+            total += 1
+            g = j // TCOPIES
+            if g not in first:
+                first[g] = mods[j]
+            elif mods[j] != first[g]:
+                a, b = first[g].split("\n"), mods[j].split("\n")
+                diff = next((i for i in range(min(len(a), len(b))) if a[i] != b[i]), min(len(a), len(b)))
+                out.violate("two expansions of the same declaration differ", process=p, module=j, declaration=items[g][:600],
+                            first_differing_line=diff, expected=a[diff][:300] if diff < len(a) else None,
+                            observed=b[diff][:300] if diff < len(b) else None)
+                break
+        if out.violations:
+            break
+    out.count("expansions_compared", total)
+    out.count("threshold_declarations", len(items))
+    out.nontrivial = True
+    out.fingerprint = J.fp("threshold", r)
+    out.sample = {"threshold_matrix": r, "declarations": len(items), "copies": TCOPIES, "processes": case["procs"]}
+    return out
 
 
 def crate_text(spec, cfg):
@@ -55,6 +121,8 @@ def split_modules(text):
 
 
 def run_case(case):
+    if "threshold" in case:
+        return run_threshold(case)
     out = J.Outcome()
     spec, cfg = case["spec"], case["cfg"]
     m = M.RefEnum(spec)
